@@ -126,6 +126,9 @@ type W struct {
 	Dials    []*Dial
 	dmu      sync.Mutex
 	closing  bool
+	// PsExpected: GB28181 sessions (start_rtp_pub) the harness knows to be running; each has a
+	// goroutine of the server reading a real UDP socket, counted with the relay goroutines
+	PsExpected int
 	// the server's clock (unix milliseconds); pkg/logic Group methods read it through group.verifNow
 	clockMs int64
 }
@@ -244,12 +247,24 @@ func SyncQueues() {
 
 // Settle waits for quiescence and drains the notify worker.
 func (w *W) Settle() error {
-	if w.relay {
-		if err := w.settleRelay(); err != nil {
-			return err
+	for {
+		if w.relay {
+			if err := w.settleRelay(); err != nil {
+				return err
+			}
+		} else if err := w.Net.Quiesce(); err != nil {
+			return fmt.Errorf("%w: %s", err, w.Net.Describe())
 		}
-	} else if err := w.Net.Quiesce(); err != nil {
-		return fmt.Errorf("%w: %s", err, w.Net.Describe())
+		// asynchronous SDP deliveries of RTSP in-sessions (process-wide count; they are short)
+		if atomic.LoadInt64(&rtsp.VerifAsync) == 0 {
+			break
+		}
+		for i := 0; atomic.LoadInt64(&rtsp.VerifAsync) != 0; i++ {
+			if i > 200000 {
+				return fmt.Errorf("%w: an asynchronous SDP delivery never finished", netsim.ErrHang)
+			}
+			time.Sleep(10 * time.Microsecond)
+		}
 	}
 	logic.VerifNotifyDrain(w.SM)
 	return nil
